@@ -544,3 +544,35 @@ Contract(
     properties=["C13", "C14"],
     note="refusal (AssertionError) and 'no correct inference system' (Exception) are the only raises; the table rows are those of Inference.inference",
 )
+
+
+# ---------------------------------------------------------------------------
+# create_epistemic_state: what a fresh manager starts from (C13)
+# ---------------------------------------------------------------------------
+def _ces_post(c, r):
+    if not isinstance(r, VConcDict):
+        return [z3.BoolVal(False)]
+    d = {k.const: v for k, v in r.items}
+    want = {"belief_base", "inference_system", "smt_solver", "pmaxsat_solver", "preprocessing_done", "preprocessing_timed_out", "preprocessing_time", "weakly"}
+    out = [z3.BoolVal(set(d) == want)]
+    if set(d) != want:
+        return out
+    out += [
+        z3.BoolVal(d["belief_base"] is c.belief_base),
+        d["inference_system"].t == c.inference_system.t,
+        d["smt_solver"].t == c.smt_solver.t,
+        d["pmaxsat_solver"].t == c.pmaxsat_solver.t,
+        z3.Not(d["preprocessing_done"].t),
+        z3.Not(d["preprocessing_timed_out"].t),
+        d["weakly"].t == c.weakly.t,
+    ]
+    return out
+
+
+Contract(
+    "inference.inference_manager:create_epistemic_state",
+    params={"belief_base": BeliefBaseT, "inference_system": TStr, "smt_solver": TStr, "pmaxsat_solver": TStr, "weakly": TBool},
+    ensures=_ces_post,
+    properties=["C13"],
+    note="a fresh epistemic state holds the arguments, is not preprocessed and not timed out, and nothing else",
+)
